@@ -63,7 +63,7 @@ def run_one(path):
         else:
             status = "ok" if (r.returncode == 0 and not fired) else "FALSE-ALARM"
         return {"name": name, "property": prop, "expect": exp, "status": status, "rules_fired": sorted(rules),
-                "detail": out[-600:] if status not in ("ok",) else ""}
+                "detail": "\n".join(out.strip().splitlines()[-4:])[-500:] if status not in ("ok",) else ""}
     finally:
         shutil.rmtree(tmp, ignore_errors=True)
 
